@@ -318,6 +318,13 @@ def r12c(R):
             elif isinstance(parent, ast.BoolOp) and isinstance(parent.op, ast.Or):
                 R.ok(f, '%s or <default>' % norm(c))
                 continue
+            elif isinstance(parent, ast.BoolOp) and isinstance(parent.op, ast.And) \
+                    and parent.values[0] is c:
+                gp = parents.get(id(parent))
+                if isinstance(gp, ast.Call) and norm(gp.func) in (
+                        'len', 'enumerate', 'iter', 'list', 'sorted'):
+                    use = '`%s` handed to %s(): None and [...] is None' % (
+                        norm(parent), norm(gp.func))
             if use is not None:
                 R.fail(f, c, '%s() returns None when the light does not answer '
                        '(fail value of @tries); its result is used directly '
@@ -724,3 +731,165 @@ def r15h(R):
                  for t in n.targets if self_attr(t))
     R.check(gs, '_get_size stores width and height', {'_width', '_height'} <= stored,
             '_get_size does not store both dimensions reported by the device')
+
+
+@rule('R12.h', ('C12', 'C13'), 'wrapper objects are completely initialised: '
+      'a subclass constructor runs its base constructor', floor=2,
+      decides='discovery never raises: every light object built from a '
+              'device has its name, group, location and device handle')
+def r12h(R):
+    A = R.A
+    n = 0
+    for modname in (LANLIGHT, 'bardolph.controller.light'):
+        for cls in A.repo.module(modname).classes.values():
+            init = cls.methods.get('__init__')
+            if init is None:
+                continue
+            bases = [b for b in cls.mro()[1:] if '__init__' in b.methods and any(
+                isinstance(x, ast.Attribute) and isinstance(x.ctx, ast.Store)
+                and self_attr(x) for x in walk_own(b.methods['__init__'].node))]
+            if not bases:
+                continue
+            n += 1
+            cfg = A.cfg(init)
+            sup = [m for m in cfg.nodes for c in m.calls()
+                   if isinstance(c.func, ast.Attribute) and c.func.attr == '__init__'
+                   and (norm(c.func.value).startswith('super()')
+                        or norm(c.func.value) in [b.name for b in bases])]
+            p = cfg.find_path([cfg.entry], lambda m: m is cfg.exit, avoid=sup) \
+                if sup else []
+            R.check(init, '%s.__init__ -> super().__init__()' % cls.name,
+                    bool(sup) and p is None,
+                    '%s is built without running the constructor of %s: the '
+                    'attributes that one sets (%s) are missing and the first '
+                    'use raises AttributeError - out of discovery'
+                    % (cls.name, bases[0].name, ', '.join(sorted(set(
+                        x.attr for x in walk_own(bases[0].methods['__init__'].node)
+                        if isinstance(x, ast.Attribute) and isinstance(x.ctx, ast.Store)
+                        and self_attr(x)))[:4])))
+    if n < 2:
+        raise AnalysisError('R12.h: only %d subclass constructors found' % n)
+
+
+@rule('R12.i', ('C12', 'C15'), 'optional values are tested before they are '
+      'sanitised, compared or used as a capability', floor=5,
+      decides='a request with an omitted optional argument, a configuration '
+              'without an expected count and a device with the zone call all '
+              'work; none raises out of discovery or drops the command')
+def r12i(R):
+    A = R.A
+    mod = A.repo.module(LANLIGHT)
+    n = 0
+    for cls in mod.classes.values():
+        for m in cls.methods.values():
+            defaults = {}
+            a = m.node.args
+            for arg, d in zip(a.args[len(a.args) - len(a.defaults):], a.defaults):
+                if isinstance(d, ast.Constant) and d.value is None:
+                    defaults[arg.arg] = True
+            if not defaults:
+                continue
+            # the way the product calls it: every optional argument omitted
+            live = A.nodes_under(m, {p: None for p in defaults})
+            cfg = A.cfg(m)
+            for node in cfg.nodes:
+                for c in node.calls():
+                    if norm(c.func).startswith('param_') and c.args \
+                            and isinstance(c.args[0], ast.Name) \
+                            and c.args[0].id in defaults:
+                        n += 1
+                        p = c.args[0].id
+                        R.check(m, c, node not in live,
+                                '%s(%s) runs when the optional arguments are '
+                                'omitted (`%s` is None): round(None) raises '
+                                'TypeError - in the constructor that means out '
+                                'of discovery' % (norm(c.func), p, p),
+                                line=c.lineno)
+    # the capability test and the call it guards name the same attribute
+    for cls in mod.classes.values():
+        for m in cls.methods.values():
+            cfg = A.cfg(m)
+            tests = [t for t in cfg.nodes if t.kind == 'cond'
+                     and isinstance(t.ast, ast.Call) and norm(t.ast.func) == 'hasattr']
+            for t in tests:
+                n += 1
+                ok = len(t.ast.args) == 2 and self_attr(t.ast.args[0]) == '_impl' \
+                    and isinstance(A.try_fold(t.ast.args[1], m), str)
+                name = A.try_fold(t.ast.args[1], m) if ok else None
+                calls = [x for x in cfg.nodes for c in x.calls()
+                         if isinstance(c.func, ast.Attribute) and c.func.attr == name
+                         and self_attr(c.func.value) == '_impl']
+                ok = ok and bool(calls) and all(
+                    (norm(t.ast), True) in A.path_facts(m, x) for x in calls)
+                R.check(m, t.ast, ok,
+                        'the device call is not made exactly when the library '
+                        'object has it (hasattr test reversed, or its arguments '
+                        'exchanged): the command is never sent')
+    # a count that may be absent from the configuration
+    gl = A.func(LANAPI, 'LifxLanApi.get_lights')
+    cfg = A.cfg(gl)
+    maybe = set()
+    for s in walk_own(gl.node):
+        if isinstance(s, ast.Assign) and isinstance(s.value, ast.Call) \
+                and isinstance(s.value.func, ast.Attribute) \
+                and s.value.func.attr == 'get_value' and len(s.value.args) == 2 \
+                and isinstance(s.value.args[1], ast.Constant) \
+                and s.value.args[1].value is None:
+            maybe |= set(norm(t) for t in s.targets)
+    for node in cfg.nodes:
+        if node.kind == 'cond' and isinstance(node.ast, ast.Compare) and \
+                isinstance(node.ast.ops[0], (ast.Lt, ast.LtE, ast.Gt, ast.GtE)):
+            names = set(norm(x) for x in [node.ast.left] + node.ast.comparators)
+            for v in names & maybe:
+                n += 1
+                R.check(gl, node.ast, ('%s is None' % v, False) in A.path_facts(gl, node),
+                        '`%s` comes from the configuration with default None '
+                        'and is compared without a None test: with the shipped '
+                        'defaults a successful discovery raises TypeError' % v)
+    if n < 4:
+        raise AnalysisError('R12.i: only %d optional-value uses found' % n)
+    # library protocol: request class first, response class second; one datagram
+    ml = A.cls(LANLIGHT, 'MatrixLight')
+    for m in ml.methods.values():
+        for c in A.calls_in(m):
+            if isinstance(c.func, ast.Attribute) and c.func.attr == 'req_with_resp' \
+                    and len(c.args) >= 2:
+                a0, a1 = norm(c.args[0]), norm(c.args[1])
+                R.check(m, c, a0.startswith('Get') and a1.startswith('State'),
+                        'req_with_resp(%s, %s): the request class and the '
+                        'response class are exchanged - the device never '
+                        'answers' % (a0, a1), line=c.lineno)
+            if isinstance(c.func, ast.Attribute) and c.func.attr == 'fire_and_forget':
+                rep = [k.value for k in c.keywords if k.arg == 'num_repeats']
+                R.check(m, c, not rep or A.try_fold(rep[0], m) == 1,
+                        'the tile message is sent more than once',
+                        line=c.lineno)
+
+
+@rule('R12.j', ('C12', 'C13'), 'discover() answers True when it completed and '
+      'False when it could not', floor=1,
+      decides='a discovery that cannot complete reports failure (and only '
+              'such a one)')
+def r12j(R):
+    A = R.A
+    d = A.func('bardolph.controller.light_set', 'LightSet.discover')
+    cfg = A.cfg(d)
+    consts = [(r, r.ret_expr.value) for r in cfg.return_nodes()
+              if isinstance(r.ret_expr, ast.Constant)]
+    in_handler = set()
+    for n in walk_own(d.node):
+        if isinstance(n, ast.ExceptHandler):
+            for x in ast.walk(n):
+                if isinstance(x, ast.Return):
+                    in_handler.add(id(x))
+    ok = bool(consts)
+    for r, v in consts:
+        handler = id(getattr(r.ast, 'stmt', r.ast)) in in_handler or id(r.ast) in in_handler
+        if handler and v is not False:
+            ok = False
+        if not handler and v is not True:
+            ok = False
+    R.check(d, 'discover: True after the loop, False in the exception handler',
+            ok, 'discover() reports failure for a discovery that completed (or '
+            'success for one that did not): the refresh thread waits the '
+            'failure interval for ever / never retries')
